@@ -728,7 +728,7 @@ fn one_case_glue(rep: &mut Report, drv: &mut Driver, src: &str, ret: Ret, origin
             // generated clone / drop functions of aggregates, list element vtables) treats a
             // registered `#[clone]` type whose Rust type has size 0.
             rep.violation(
-                &format!("zero-sized registered #[clone] type: {} (created {}, cloned {}, dropped {}) while the same script over the sized token balances on the same inputs (n={} m={} c={}); the MIR is accepted by the verified checkers: the clone / drop glue treats a type of size 0 differently from a sized one",
+                &format!("zero-sized registered #[clone] type: {} (created {}, cloned {}, dropped {}) while the same script over the sized token balances on every steering input (here n={} m={} c={}); the MIR is accepted by the verified checkers: the clone / drop glue treats a type of size 0 differently from a sized one",
                     describe(b), b.created, b.cloned, b.dropped, i.n, i.m, i.c),
                 "zero-sized-token-glue", input(i, b));
             rep.class("defect:zero-sized-token-glue".to_string());
@@ -769,14 +769,21 @@ fn one_case_glue(rep: &mut Report, drv: &mut Driver, src: &str, ret: Ret, origin
     }
 }
 
-/// Does the sized twin of a zero-sized script balance (tokens, and heap on the warm call) on `i`?
-fn twin_balances(src: &str, ret: Ret, i: Inputs) -> bool {
+/// Does the sized twin of a zero-sized script balance (tokens, and heap on the warm call) on
+/// EVERY steering input? (The two twins may take different paths on one input — a zero-sized
+/// token has no tag, so `==` / `contains` / `index` answer differently — so one input says little.)
+fn twin_balances(src: &str, ret: Ret, _i: Inputs) -> bool {
     let Ok(mut pkg) = compile(&progen::sized_src(src)) else { return false };
-    let Ok(b1) = call_once(&mut pkg, ret, i, Tok::Sized) else { return false };
-    if !b1.ok() {
-        return false;
+    for i in all_inputs() {
+        let Ok(b1) = call_once(&mut pkg, ret, i, Tok::Sized) else { return false };
+        if !b1.ok() {
+            return false;
+        }
+        if !matches!(call_once(&mut pkg, ret, i, Tok::Sized), Ok(b2) if b2.ok() && b2.allocs == 0) {
+            return false;
+        }
     }
-    matches!(call_once(&mut pkg, ret, i, Tok::Sized), Ok(b2) if b2.ok() && b2.allocs == 0)
+    true
 }
 
 /// the list methods used in `main` that receive an element as a `DynVal` (raw pointer)
